@@ -1727,6 +1727,8 @@ func (s *Server) loadSubscriptions(v []storage.Subscription) {
 			if s.Topics.Subscribe(sub.Client, sb) {
 				cl.State.Subscriptions.Add(sub.Filter, sb)
 			}
+		} else { // the session has ended: its record is dropped from the store, or a later session with this id would get it
+			s.hooks.OnUnsubscribed(s.NewClient(nil, "", sub.Client, false), packets.Packet{FixedHeader: packets.FixedHeader{Type: packets.Unsubscribe}, Filters: packets.Subscriptions{sb}})
 		}
 	}
 }
@@ -1772,6 +1774,8 @@ func (s *Server) loadInflight(v []storage.Message) {
 	for _, msg := range v {
 		if client, ok := s.Clients.Get(msg.Client); ok {
 			client.State.Inflight.Set(s.restoreExpiry(msg.ToPacket()))
+		} else { // left behind by a session which has ended: dropped from the store as well
+			s.hooks.OnQosDropped(s.NewClient(nil, "", msg.Client, false), msg.ToPacket())
 		}
 	}
 }
